@@ -15,7 +15,8 @@ import wholeprog as W
 TYPING = {1: "initializer", 2: "call argument", 3: "constructor argument", 4: "super-constructor argument",
           5: "function result", 6: "conditional branch", 7: "assignment", 8: "type argument outside its bound",
           16: "abstract member not implemented", 17: "incompatible override", 18: "inheritance from a final class",
-          19: "default value", 20: "condition is not Boolean"}
+          19: "default value", 20: "condition is not Boolean",
+          27: "projection on a type parameter that another parameter's bound mentions"}
 SCOPING = {9: "unresolved variable", 10: "unresolved function", 11: "unresolved field", 12: "unresolved class",
            13: "wrong number of arguments", 14: "assignment to a final variable/field",
            15: "instantiation of a non-regular class", 21: "identifier declared twice in one scope",
@@ -78,12 +79,16 @@ def dependent_bound_classes(node, ser):
 
 
 def gen_plan(tier, seed, pid):
-    nper = 6 if tier == "quick" else 150          # per language x configuration corner
+    import os
+    nper = int(os.environ.get("VERIF_WHOLE_N", "6")) if tier == "quick" else 150          # per language x configuration corner
     plan = []
     for lang in T.LANGS:
         for combo in (0, 15, 5, 10):
             for s in range(nper if combo == 0 else max(1, nper // 3)):
                 plan.append((combo, lang, C.sub_seed(seed, "wholeprog", combo, lang, s) % (2 ** 31)))
+        # directed stream: seeded contexts + stressed configuration (progs.generate_directed), under two switch corners
+        for s in range(nper * 3 + 2 if tier == "quick" else nper):
+            plan.append((-1 if s % 3 else -6, lang, C.sub_seed(seed, "wholeprog-directed", lang, s) % (2 ** 31)))
     return plan
 
 
@@ -92,9 +97,9 @@ def generate_all(plan, rows):
     out = []
     fails = []
     for (combo, lang, s) in plan:
-        progs.set_cfg(rows[combo])
+        progs.set_cfg(rows[combo] if combo >= 0 else rows[-1 - combo])
         try:
-            p = progs.generate(lang, s)
+            p = progs.generate_directed(lang, s) if combo < 0 else progs.generate(lang, s)
         except Exception as e:              # noqa: BLE001
             fails.append((combo, lang, s, "%s: %s" % (type(e).__name__, str(e)[:200])))
             continue
